@@ -288,6 +288,25 @@ func Exec(p *bcl.Prog, out, log *bytes.Buffer, opts int) *ExecResult {
 	return r
 }
 
+// ExecW is Exec for a Prog whose writers are SimWriters.
+func ExecW(p *bcl.Prog, out, log *simio.SimWriter, opts int) *ExecResult {
+	r := &ExecResult{}
+	o0, l0 := out.Len(), log.Len()
+	func() {
+		defer func() {
+			if x := recover(); x != nil {
+				r.Panic = panicSig(x)
+			}
+		}()
+		bs, bd, err := bcl.Execute(p, bcl.OptOutput(out), bcl.OptLogger(log),
+			bcl.OptTrace(opts&OptTrace != 0), bcl.OptStats(opts&OptStats != 0))
+		r.Blocks, r.Binding, r.Err = RenderBlocks(bs), RenderBinding(bd), errText(err)
+		r.RawBlocks, r.RawBinding = bs, bd
+	}()
+	r.Out, r.Log = out.String()[o0:], log.String()[l0:]
+	return r
+}
+
 var reAddr = regexp.MustCompile(`0x[0-9a-f]{6,}`)
 var reNum = regexp.MustCompile(`\d+`)
 
